@@ -266,6 +266,8 @@ TrChResult ==
     /\ IsEvent("ch_result")
     /\ ChFinish(R.i)
     /\ R.ok = (ch[R.i].msg = "ok")
+    \* C13: a chain ends with an error only if something unrecoverable was injected into it (harness side, from the scenario)
+    /\ ~R.spurious
     /\ KeepBut(R.i)
 
 \* what the run handed back, compared harness-side with the reference run
